@@ -335,8 +335,12 @@ pub fn evidence_json(ctx: &Ctx, res: &CheckResult, wall_s: f64, unknown_violatio
     if ev.excluded_known > 0 {
         cov.insert("excluded_known_findings".into(), json!(ev.excluded_known));
     }
-    if !ev.notes.is_empty() {
-        cov.insert("notes".into(), json!(ev.notes));
+    let mut notes = ev.notes.clone();
+    if ev.distinct.len() >= DISTINCT_CAP {
+        notes.push(format!("distinct_nontrivial is a lower bound: the hash set of distinct cases is capped at {} entries", DISTINCT_CAP));
+    }
+    if !notes.is_empty() {
+        cov.insert("notes".into(), json!(notes));
     }
     for (k, v) in &ev.extra {
         cov.insert(k.clone(), v.clone());
